@@ -3,9 +3,9 @@ from ..rules import loopbind
 from .common import declare
 
 RULES = ['MODE-PRESERVED', 'LOOP-FALLBACK', 'CONFLICT-RAISES', 'INHERIT', 'LOOP-USE-ENSURES', 'CTOR-CHAINS', 'THREAD-SITE',
-         'SCHEDULE-ON-SELF-LOOP']
+         'SCHEDULE-ON-SELF-LOOP', 'OPTIONS-REACH']
 FLOORS = {'MODE-PRESERVED': 2, 'LOOP-FALLBACK': 1, 'CONFLICT-RAISES': 6, 'INHERIT': 2, 'LOOP-USE-ENSURES': 20, 'CTOR-CHAINS': 40,
-          'THREAD-SITE': 3, 'SCHEDULE-ON-SELF-LOOP': 1}
+          'THREAD-SITE': 3, 'SCHEDULE-ON-SELF-LOOP': 1, 'OPTIONS-REACH': 40}
 
 META = {
     'level': "Static analysis of loop/mode binding: Stream.__init__ overwrites the mode with a constant only when it is undecided "
@@ -30,8 +30,10 @@ def run(ctx, R):
     R.run(loopbind.check_inform, ctx, R)
     R.run(loopbind.check_loop_use_ensures, ctx, R)
     R.run(loopbind.check_ctor_chains, ctx, R)
+    R.run(loopbind.check_options_reach, ctx, R)
     R.run(loopbind.check_thread_site, ctx, R)
     R.run(loopbind.check_schedule_on_self_loop, ctx, R)
 
 
 META['level'] += ' The asynchronous test is the first thing get_io_loop does; _inform_* percolate unconditionally; RefCounters created by nodes are bound to self.loop.'
+META['level'] += ' OPTIONS-REACH: loop= / asynchronous= given to any node constructor travel along the constructor chain to Stream.__init__ (where a conflict raises), except for the tabled classes whose keywords belong to the user function.'
